@@ -147,7 +147,7 @@ func checkC09(c *Ctx) {
 			nGo++
 			reachStore := false
 			for _, t := range targets {
-				for h := range m.staticReach(t, true) {
+				for _, h := range sortedFns(m.staticReach(t, true)) {
 					if m.reachesStoreOp(h) {
 						reachStore = true
 					}
@@ -289,6 +289,15 @@ func checkC09(c *Ctx) {
 			}
 		}
 		c.check(len(foreign) == 0, "R5", "Delete depends only on DeleteKey, ownership and the completed wait in "+shortFn(op.Fn), op.Call, "other conditions on the way to Delete: %v", foreign)
+		for _, l := range m.GuardsAt(op.Call) {
+			if g := calleeOfSym(l.S); l.S.Op == "call" && g != nil && m.isLib(g) && m.isOwnershipCheck(g) {
+				m.ownershipExtras[g] = nil
+				m.isOwnershipCheck(g)
+				extras := uniqStrings(m.ownershipExtras[g])
+				c.check(len(extras) == 0, "R5", "ownership verdict demands nothing beyond id and term token in "+shortFn(g), op.Call,
+					"additional conditions for a positive verdict: %v. The record's owner can then fail its own ownership check (e.g. while a heartbeat is in flight) and the key is not deleted although DeleteKey was requested.", extras)
+			}
+		}
 		// on the success path: every `return nil` reachable after the ownership verdict passes the Delete or the verdict's negative edge
 	}
 	if nDel == 0 {
